@@ -631,7 +631,7 @@ type wireCase struct {
 	tags [][]string
 }
 
-func runCases(t *testing.T, out *verifOut, apply func(string) string, tagOf func(op, obs string) []string, gen func(emit func(cs string, ops []string))) {
+func runCases(t *testing.T, out *verifOut, stream string, apply func(string) string, tagOf func(op, obs string) []string, gen func(emit func(cs string, ops []string))) {
 	emitCase := func(cs string, ops []string) {
 		out.line(cs, "reset", "ok", "reset")
 		for _, op := range ops {
@@ -644,7 +644,8 @@ func runCases(t *testing.T, out *verifOut, apply func(string) string, tagOf func
 		return
 	}
 	if dir := os.Getenv("VERIF_CORPUS"); dir != "" {
-		files, _ := filepath.Glob(filepath.Join(dir, "*.ops"))
+		// corpus files are named <stream>-<what>.ops
+		files, _ := filepath.Glob(filepath.Join(dir, stream+"-*.ops"))
 		sort.Strings(files)
 		for _, f := range files {
 			emitCase("corpus-"+filepath.Base(f), readOps(t, f))
@@ -739,7 +740,7 @@ func TestVerifWireMsg(t *testing.T) {
 	out := verifOpen(t)
 	defer out.close()
 	r := verifRng(19)
-	runCases(t, out, wireApply, msgTags, func(emit func(string, []string)) {
+	runCases(t, out, "msg", wireApply, msgTags, func(emit func(string, []string)) {
 		n := verifN(1500, 60000)
 		for c := 0; c < n; c++ {
 			var ops []string
@@ -778,7 +779,7 @@ func TestVerifWireIds(t *testing.T) {
 	out := verifOpen(t)
 	defer out.close()
 	r := verifRng(2)
-	runCases(t, out, wireApply, msgTags, func(emit func(string, []string)) {
+	runCases(t, out, "ids", wireApply, msgTags, func(emit func(string, []string)) {
 		// fixed boundary sweep first
 		var sweep []string
 		for _, base := range []int64{0, 1 << 31, 1 << 53} {
